@@ -16,7 +16,8 @@ K (correspondence)
 O (direct oracle, from the property text, on the real events and the real objects)
   exclusive — a worker handed to a borrower is held by nobody else and is not in the idle dict;
   idle cap  — `idle_count` (locked) and the dict itself at every event never exceed `max_idle` (0 included);
-  clean     — a handed worker was alive at its last poll and its REAL connection is at a message boundary;
+  clean     — a handed worker was spawned or polled alive by the borrowing thread during this borrow (and by nobody as
+              dead since) and its REAL connection is at a message boundary;
               every value a borrower reads carries its own number (no foreign response);
   and the run ends (no deadlock / hang), no thread dies of an exception.
 """
@@ -37,6 +38,7 @@ OBLIGATIONS = [
     "VgiVerif.C32.C32_idle_cap",
     "VgiVerif.C32.C32_clean",
     "VgiVerif.C32.C32_clean_step",
+    "VgiVerif.C32.C32_handover_checked",
     "VgiVerif.C32.C32_idle_clean",
     "VgiVerif.C32.C32_closed_empty",
     "VgiVerif.C32.C32_accepts_sound",
@@ -371,6 +373,7 @@ def analyse(cfg: dict[str, Any], run: Any) -> dict[str, Any]:
     clock = 0
     holders: dict[int, int] = {}          # wid -> tid currently holding it (got .. done)
     returning: dict[int, int] = {}        # tid -> wid inside _return_worker
+    vouched: dict[int, set[int]] = {}     # tid -> workers spawned / polled alive by this thread since its connect()
     last_poll: dict[int, bool] = {}
     died_since_poll: dict[int, bool] = {}
     shared: list[str] = []
@@ -404,6 +407,7 @@ def analyse(cfg: dict[str, Any], run: Any) -> dict[str, Any]:
         elif k == "wr":
             events.append(["wr", tid])
         elif k == "wspawn":
+            vouched.setdefault(tid, set()).add(ev[2])
             last_poll[ev[2]] = True
             died_since_poll[ev[2]] = False
             events.append(["spawn", tid, ev[2], ev[3]])
@@ -411,6 +415,10 @@ def analyse(cfg: dict[str, Any], run: Any) -> dict[str, Any]:
             died_since_poll[ev[2]] = True
             events.append(["die", ev[2]])
         elif k == "poll":
+            if ev[3]:
+                vouched.setdefault(tid, set()).add(ev[2])
+            else:
+                vouched.setdefault(tid, set()).discard(ev[2])
             last_poll[ev[2]] = bool(ev[3])
             died_since_poll[ev[2]] = False
             events.append(["poll", tid, ev[2], bool(ev[3])])
@@ -424,6 +432,8 @@ def analyse(cfg: dict[str, Any], run: Any) -> dict[str, Any]:
             holders[w] = tid
             if not last_poll.get(w, False):
                 dead_handover.append(f"worker {w} handed to thread {tid} although its last poll found it dead")
+            elif w not in vouched.get(tid, set()):
+                dead_handover.append(f"worker {w} handed to thread {tid} without a health check (or spawn) in this borrow")
             events.append(["got", tid, w])
         elif k == "done":
             events.append(["done", tid])
@@ -432,6 +442,8 @@ def analyse(cfg: dict[str, Any], run: Any) -> dict[str, Any]:
                 over_cap.append(f"idle_count returned {ev[2]} > max_idle {cfg['maxIdle']}")
             events.append(["obsVal", tid, ev[2]])
         elif k in ("spawnFail", "connect", "refused", "raised", "closeCall", "closeDone", "obsCall"):
+            if k == "connect":
+                vouched[tid] = set()
             events.append([k, tid, *ev[2:]])
         elif k == "use":
             events.append(["use", tid, ev[2], bool(ev[3]), bool(ev[4]), int(ev[5])])
@@ -452,21 +464,21 @@ def real_idle(cfg: dict[str, Any], pool: Any) -> list[Any]:
 
 
 def history_class(run: Any, wid: int, before_index: int) -> str:
-    """Why a worker may be unclean: the last flags its previous holder left (for a specific failure key)."""
-    last = "fresh"
+    """Why a worker may be unclean: the last client operation (and the pool's stream flags after it) of the holder that
+    had it before the `before_index`-th hand-over of the run — the canonical class of the failure."""
     n = 0
+    holding: dict[int, int] = {}
+    last: dict[int, str] = {}
     for ev in run.trace:
         if ev[0] == "got":
-            n += 1
-            if n > before_index:
+            if n == before_index:
                 break
-        if ev[0] == "ret" and ev[2] == wid:
-            last = "returned"
-        if ev[0] == "use":
-            last_use = ev
-            if True:
-                last = f"after-{last_use[2]}:opened={int(last_use[3])},leaked={int(last_use[4])},sess={last_use[5]}"
-    return last
+            n += 1
+            holding[ev[1]] = ev[2]
+            last[ev[2]] = "no-client-op"
+        elif ev[0] == "use" and ev[1] in holding:
+            last[holding[ev[1]]] = f"after-{ev[2]}:opened={int(ev[3])},leaked={int(ev[4])},sess={ev[5]}"
+    return last.get(wid, "fresh")
 
 
 def snapshot(cfg: dict[str, Any], run: Any) -> dict[str, Any]:
@@ -517,7 +529,7 @@ def judge(ctx: Any, cfg: dict[str, Any], run: Any, an: dict[str, Any], env: dict
     if worst > cap:
         ctx.fail(case, f"C32:idle-over-cap:max_idle={cap}", f"the idle dict held {worst} workers with max_idle={cap}")
     for msg in an["dead_handover"]:
-        ctx.fail(case, "C32:handed-dead", msg)
+        ctx.fail(case, "C32:handed-unchecked" if "without" in msg else "C32:handed-dead", msg)
     for i, h in enumerate(env["handover"]):
         if h["alive"] and not h["synced"]:
             why = history_class(run, h["wid"], i)
@@ -770,7 +782,7 @@ def run(ctx: Any) -> None:
     thorough = ctx.tier == "thorough"
     check_meta(ctx, PM)
     bound = 3 if thorough else 2
-    per = ctx.budget(60, 900)
+    per = ctx.budget(42, 300)
     cfgs: list[tuple[dict[str, Any], int, int, int]] = []
     for c in CORPUS:
         cfgs.append((dict(c, src=c.get("src", "corpus")), per, bound, per // 6))
@@ -778,10 +790,10 @@ def run(ctx: Any) -> None:
         cfgs.append((dict(c, src="corpus", lines=True), per // 2, bound, per // 4))
     fam = callback_family()
     if not thorough:
-        fam = fam[:: max(1, len(fam) // ctx.budget(60, 10**6))]
+        fam = fam[:: max(1, len(fam) // ctx.budget(48, 10**6))]
     for c in fam:
-        cfgs.append((c, ctx.budget(3, 40), bound, ctx.budget(1, 10)))
-    for i in range(ctx.budget(14, 160)):
+        cfgs.append((c, ctx.budget(3, 20), bound, ctx.budget(1, 10)))
+    for i in range(ctx.budget(12, 100)):
         c = gen_cfg(rng)
         if i % 4 == 3:
             c["lines"] = True
